@@ -455,7 +455,7 @@ theorem stream_dict_rt (opt : FmtOpt) (kv : List (Bytes × Obj)) (value : Bytes)
 /-- the `N G obj` header: `ReadIndirectObject` hands the content to `readTopObject` and expects
     `endobj` behind it -/
 theorem readIndirectObject_body (num gen : Nat) (hnum : num < Gen.fio_maxXRefSize) (hgen : gen ≤ Gen.fio_maxGeneration)
-    (content : Bytes) (hc : skipWS content = (content, false)) (off : Nat) (getInt : Obj → Option Int)
+    (content : Bytes) (hc : skipWS content = (content, false)) (off : Nat) (getInt : Obj → Except Err Int)
     (obj : RObj) (r5 r6 : Bytes)
     (htop : readTopObject content (off + (objHeader num gen).length) getInt = .ok (obj, r5))
     (hs : skipWS r5 = (r6, false)) (hend : isPrefixOf kwEndobj r6 = true) :
@@ -505,8 +505,9 @@ theorem stream_obj_rt (num gen : Nat) (hnum : num < Gen.fio_maxXRefSize) (hgen :
     (dictBytes body rest : Bytes) (rdict : List (Bytes × Obj)) (lv : Obj) (dt : Bytes) (hdt : dictBytes = 60 :: 60 :: dt)
     (hrd : ∀ rest' fuel, fuel ≥ 3 * (dictBytes ++ rest').length + 2 →
       readDict fuel 0 (dictBytes ++ rest') = .ok (rdict, rest'))
-    (off : Nat) (getInt : Obj → Option Int)
-    (hlv : dictGet rdict kLen = some lv) (hgi : getInt lv = some (body.length : Int)) :
+    (off : Nat) (getInt : Obj → Except Err Int)
+    (hlv : dictGet rdict kLen = some lv) (hgi : getInt lv = .ok (body.length : Int))
+    (hsz : off + (objHeader num gen ++ dictBytes ++ kStream ++ body).length < 9223372036854775808) :
     readIndirectObject (objHeader num gen ++ dictBytes ++ kStream ++ body ++ kEndstream ++ rest) off getInt
       = .ok (.stream (rdict.filter fun e => e.1 != kLen)
           (off + (objHeader num gen).length + dictBytes.length + 8) body.length, num, gen, 10 :: rest) := by
@@ -538,6 +539,7 @@ theorem stream_obj_rt (num gen : Nat) (hnum : num < Gen.fio_maxXRefSize) (hgen :
     have hext := stream_extent body (kEndobj ++ rest)
       (off' + ((60 :: 60 :: (dt ++ (kStream ++ (body ++ [10] ++ kwEndstream ++ (kEndobj ++ rest))))).length
         - (kw_stream ++ (10 :: (body ++ [10] ++ kwEndstream ++ (kEndobj ++ rest)))).length))
+      (by subst hoff; rw [hdt] at hsz; simp [kStream, kw_stream] at hsz ⊢; omega)
     have hshape : kw_stream ++ [10] ++ body ++ [10] ++ kwEndstream ++ (kEndobj ++ rest)
         = kw_stream ++ (10 :: (body ++ [10] ++ kwEndstream ++ (kEndobj ++ rest))) := by simp
     rw [hshape] at hext
